@@ -9,9 +9,25 @@
 using namespace ephemeralnet;
 
 extern "C" int LLVMFuzzerTestOneInput(const std::uint8_t* data, std::size_t size) {
+    // first byte selects the framing: 0 = text as is, 1 = "eph://" + text, 2/3 = "eph://" + base64(bytes)
     std::string uri;
-    if (size && (data[0] & 1)) uri = "eph://";
-    uri.append(reinterpret_cast<const char*>(data + (size ? 1 : 0)), size ? size - 1 : 0);
+    const unsigned mode = size ? data[0] & 3u : 0u;
+    if (mode) uri = "eph://";
+    const std::uint8_t* body = data + (size ? 1 : 0);
+    const std::size_t n = size ? size - 1 : 0;
+    if (mode < 2) {
+        uri.append(reinterpret_cast<const char*>(body), n);
+    } else {
+        static const char tbl[] = "ABCDEFGHIJKLMNOPQRSTUVWXYZabcdefghijklmnopqrstuvwxyz0123456789+/";
+        for (std::size_t i = 0; i < n; i += 3) {
+            const std::uint32_t a = body[i], b = i + 1 < n ? body[i + 1] : 0, c = i + 2 < n ? body[i + 2] : 0;
+            const std::uint32_t v = (a << 16) | (b << 8) | c;
+            uri.push_back(tbl[(v >> 18) & 63]);
+            uri.push_back(tbl[(v >> 12) & 63]);
+            uri.push_back(i + 1 < n ? tbl[(v >> 6) & 63] : '=');
+            uri.push_back(i + 2 < n ? tbl[v & 63] : '=');
+        }
+    }
     uri.shrink_to_fit();
     try {
         const auto m = protocol::decode_manifest(uri);
